@@ -152,6 +152,41 @@ def guarded_functions(F, guard, members):
     return out
 
 
+def budget_discharge(F, f, b, kind, detail, defs):
+    """`wraps += 1` (a u32 counted up by one) on a path where the wrap budget accepted that very counter: Parser::can_wrap(wraps)
+    answered true, i.e. level + wraps < MAX_NESTING. Holds wherever a refactoring puts the loop (a helper, another loop form)."""
+    if kind != "assert" or not str(detail).startswith("Overflow"):
+        return None
+    t = f.term(b)
+    co = defs.origin_op(t["cond"]) if "cond" in t else {}
+    base = co
+    while base.get("k") == "field":
+        base = base["base"]
+    if not (base.get("k") == "rv" and base["rv"]["k"] == "bin" and base["rv"]["op"] == "AddWithOverflow"):
+        return None
+    kb = base["rv"]["b"].get("k") if isinstance(base["rv"]["b"], dict) else None
+    if not (isinstance(kb, dict) and str(kb.get("bits")) == "1"):
+        return None
+    guard = nesting_guard(F)
+    if not guard:
+        return None
+    ka = FL.origin_key(defs.origin_op(base["rv"]["a"]))
+    for g in FL.gates(F, f, [b], defs):
+        ct = g.get("call_t")
+        if not ct or g.get("allowed") != [True]:
+            continue
+        c = callee(ct) or ""
+        h = F.fns.get(c)
+        if h is None or not c.startswith(PM.P) or h.d.get("output") != "bool" or c == guard["method"]:
+            continue
+        if not any((callee(t2) or "").endswith("Cell::<T>::get") for _b2, t2 in h.calls()):
+            continue
+        # the counter handed to the budget test is the one counted up here
+        if len(ct["args"]) >= 2 and FL.origin_key(defs.origin_op(ct["args"][1])) == ka and ka is not None:
+            return "the wrap budget accepted this counter on the way here (%s answered true: level + wraps < %s)" % (FL.short(c), guard["limit"])
+    return None
+
+
 def nesting_status(F, R):
     """everything P5 needs: the guard, per recursive cycle whether it is cut and how heavy one level is, the wrap sites, the bound"""
     import functools
@@ -342,7 +377,7 @@ def p6_inventory(F, res, R):
     from rules import c15
     reviewed = RP.load_reviewed().get("C10", {})
     from lib.inventory import Inventory
-    INV = Inventory(F, reviewed, "Q1/")
+    INV = Inventory(F, reviewed, "Q1/", discharged=lambda f_, b_, k_, dt_, df_: c15.discharge(F, f_, b_, k_, dt_, df_) or budget_discharge(F, f_, b_, k_, dt_, df_))
     cbs = PM.lexer_callbacks(F)
     res.floor("lexer callbacks (entered through logos, named as roots)", len(cbs), 1)
     seen = F.reachable_from([ROOT] + cbs)
@@ -364,7 +399,7 @@ def p6_inventory(F, res, R):
                 defs = FL.Defs(f)
             n += 1
             desc = "the %s (%s) at this site cannot fire while parsing any input" % (kind, detail)
-            why = c15.discharge(F, f, b, kind, detail, defs)
+            why = c15.discharge(F, f, b, kind, detail, defs) or budget_discharge(F, f, b, kind, detail, defs)
             if why:
                 res.ob("P6", full, desc, True, where=f.loc(ln), how="discharged: " + why)
                 continue
